@@ -511,3 +511,113 @@ def slash_request(kind, static_root, method, raw, hasq, q):
     if isinstance(loc, list):
         return {"st": code, "loc": chars("<multiple Location headers>")}
     return {"st": code, "loc": chars(loc) if loc is not None else []}
+
+
+# ----------------------------------------------------------------------------- C31 routing
+ELEM_RE = {"s": "/", "a": "a", "1": "1", "dot": r"\.", "Gns": "([^/]+)", "Gany": "(.*)", "Gdig": "([0-9]+)",
+           "Nns": "(?P<g%d>[^/]+)", "Nany": "(?P<g%d>.*)", "Ndig": "(?P<g%d>[0-9]+)"}
+HOST_RE = {"h_a": r"a\.com", "h_any": ".*"}
+
+
+def pattern_text(elems):
+    out, k = [], 0
+    for e in elems:
+        t = ELEM_RE[e]
+        if e[0] in "GN":
+            k += 1
+            if "%d" in t:
+                t = t % k
+        out.append(t)
+    return "".join(out)
+
+
+_HANDLERS = {}
+
+
+def _handler(i, j):
+    from tornado import web
+    h = _HANDLERS.get((i, j))
+    if h is None:
+        import json
+
+        def get(self, *args, **kwargs):
+            self.write(json.dumps({"h": type(self).__name__, "args": [[ord(c) for c in a] for a in args],
+                                   "kwargs": {k: [ord(c) for c in v] for k, v in kwargs.items()}}))
+        h = _HANDLERS[(i, j)] = type("H_%d_%d" % (i, j), (web.RequestHandler,), {"get": get})
+    return h
+
+
+def routing_app(rules):
+    """A real Application for the abstract rule list of Routing.tla; every rule is a named URLSpec
+    r_i_j with its own handler class H_i_j."""
+    from tornado import web
+    from tornado.routing import HostMatches
+    top = []
+    for i, e in enumerate(rules, 1):
+        if e["k"] == "path":
+            top.append(web.url(pattern_text(e["p"]), _handler(i, 0), name="r_%d_0" % i))
+        else:
+            subs = [web.url(pattern_text(p), _handler(i, j), name="r_%d_%d" % (i, j)) for j, p in enumerate(e["sub"], 1)]
+            top.append((HostMatches(HOST_RE[e["h"]]), subs) if e["k"] == "host" else (pattern_text(e["p"]), subs))
+    return web.Application(top)
+
+
+_APPS = {}
+
+
+def routing_get_app(rules):
+    from .framework import jdump
+    key = jdump(rules)
+    a = _APPS.get(key)
+    if a is None:
+        if len(_APPS) > 2000:
+            _APPS.clear()
+        a = _APPS[key] = routing_app(rules)
+    return a
+
+
+def _rule_of(name):
+    if name.startswith("H_"):
+        _, i, j = name.split("_")
+        return [int(i), int(j)]
+    return [0, 0] if name == "ErrorHandler" else name
+
+
+def routing_dispatch(rules, host, text):
+    """Application.find_handler on a constructed request: (rule, raw captured args)."""
+    from tornado import httputil
+    try:
+        app = routing_get_app(rules)
+        req = httputil.HTTPServerRequest(start_line=httputil.RequestStartLine("GET", text_of(text), "HTTP/1.1"),
+                                         headers=httputil.HTTPHeaders({"Host": host}))
+        d = app.find_handler(req)
+        kw = d.path_kwargs
+        args = [kw[k] for k in sorted(kw)] if kw else list(d.path_args)
+        return {"rule": _rule_of(d.handler_class.__name__), "args": [list(a) if a is not None else "none" for a in args], "named": bool(kw)}
+    except Exception as e:
+        return {"rule": "exc:" + type(e).__name__, "args": [], "named": False}
+
+
+def routing_dispatch_http(rules, host, text):
+    """The same through the HTTP server: what the handler method actually received."""
+    import json
+    key = ("routing", __import__("harness.framework", fromlist=["jdump"]).jdump(rules))
+    resp = http().request(key, lambda: routing_app(rules), "GET", text_of(text), host=host)
+    if resp[0] == "noresp":
+        return {"rule": "noresp", "args": [], "named": False}
+    code, _, body = resp
+    if code == 404:
+        return {"rule": [0, 0], "args": [], "named": False}
+    if code != 200:
+        return {"rule": "status%d" % code, "args": [], "named": False}
+    d = json.loads(body)
+    kw = d["kwargs"]
+    return {"rule": _rule_of(d["h"]), "args": [kw[k] for k in sorted(kw)] if kw else d["args"], "named": bool(kw)}
+
+
+def routing_reverse(rules, i, j, args):
+    try:
+        app = routing_get_app(rules)
+        return {"url": chars(app.reverse_url("r_%d_%d" % (i, j), *[text_of(a) for a in args]))}
+    except Exception as e:
+        return {"url": "exc:" + type(e).__name__}
